@@ -199,6 +199,18 @@ func checks() map[string]CheckDef {
 		Stubs:   []string{"service.Headers replaced by a stub with an arbitrary tip (height, hash, IsCurrent)", "service.Chains stub returning the stated outcome per header", "real peerpkg.Peer objects marked connected with a no-op connection; queued messages and Disconnect observed through in-package helpers", "crypto/rand.Int returns an arbitrary value in [0, max)", "SyncManager.logSyncState (logging) is a no-op"},
 	})
 	add(CheckDef{
+		ID: "C15", Level: "model_checking",
+		Runs: []HRun{
+			{Pkg: "internal/zzverif/c15", Func: "HarnessTwoSubmitters", Quick: [][]int64{{1, 1}, {1, 2}}, Thorough: [][]int64{{1, 3}, {2, 1}, {2, 2}},
+				Labels: []string{"C15/rows-wellformed", "C15/both-submissions-stored-once", "C15/old-rows-keep-everything-but-state", "C15/one-longest-header-per-height", "C15/store-is-a-sequential-outcome", "C15/one-event-per-stored-header"}},
+			{Pkg: "internal/zzverif/c15", Func: "HarnessReaderDuringAdd", Quick: [][]int64{{2}, {3}}, Thorough: [][]int64{{3}, {4}},
+				Labels: []string{"C15/reader-gets-a-tip", "C15/observed-tip-is-stored", "C15/observed-tip-is-the-highest-longest-chain-header", "C15/observed-longest-chain-is-one-path-from-genesis"}},
+		},
+		Bounds:  []string{"two concurrent Add calls with two different new headers (arbitrary parents: stored or not, each other, equal or different) on an arbitrary INV-H store of k rows (quick k=1, thorough k<=2), interleaved in every way at repository-method granularity with at most p preemptions (quick p<=2, thorough p<=3 at k=1, p<=2 at k=2); the schedule is a vector of solver variables; the outcome is compared with both sequential orders run on copies of the same store", "one tip reader at an arbitrary storage-operation boundary of one Add on an arbitrary INV-H store (quick k<=3, thorough k<=4: includes a reorganisation)"},
+		Outside: []string{"data-race freedom (a property of unsynchronised memory accesses, not of values: the race detector's job, not expressible as an assertion over this execution)", "free-running goroutine schedules, peers connecting and disconnecting, the shared peers map, notification delivery concurrency", "three or more submitters; preemption inside a repository method (each is one statement or one single-statement transaction)", "submissions of an already stored or forbidden header (sequential behaviour is C01)"},
+		Stubs:   []string{"scheduling points (vh.Yield) are placed in front of every repository.Headers method that Add uses by a wrapper in the harness", "sync.Mutex modelled for the two threads (a thread that blocks hands control to the holder)", "hasher returns an arbitrary distinct hash per submitted header", "notifier counts events"},
+	})
+	add(CheckDef{
 		ID: "C18", Level: "model_checking",
 		Runs: []HRun{
 			{Pkg: "transports/p2p", Func: "HarnessAdmission",
